@@ -134,7 +134,8 @@ def monitor(tr, which):
                 expected = {}
                 for t, n, v in items:
                     credits[(user, t, n)] = credits.get((user, t, n), 0) + v
-                    expected[refund_key(user, t, n)] = credits[(user, t, n)]
+                    if v != 0:      # the observation is a storage DIFF: a credit that grows by 0 does not appear in it
+                        expected[refund_key(user, t, n)] = credits[(user, t, n)]
                 if which == 'C16':
                     got = {key: int(v, 16) if v else 0 for key, v in gov_sd if key.startswith(REFUND)}
                     exp = {key: v for key, v in expected.items()}
